@@ -908,3 +908,99 @@ func TestVerifC01TripRecover(t *testing.T) {
 	}
 	c01StatCheck(m, "trip-all", stats.all, 2000)
 }
+
+// TestVerifC01Disabled: NoBreakerFor(name) is an opt-out for ONE name. What the
+// statement still promises there: a call whose req did not run is a proper
+// rejection, a name whose recorded outcomes satisfy total-5 <= 1.5*accepts is
+// never cut off, fallback only on rejection, panics re-raised; and every other
+// name keeps its breaker (same instance, still trips).
+func TestVerifC01Disabled(t *testing.T) {
+	m := vk.New(t, "C01", "NoBreakerFor(X) on a fresh or an already tripped name X, with a bystander name B: Get(B) keeps returning B's breaker; 300 calls on X through Get(X) and the package-level named forms (all kinds and outcomes) obey the per-call clauses and are never rejected while the outcomes recorded for X (including those before the opt-out) satisfy total-5 <= 1.5*accepts; afterwards 400 failing calls on B still see >= 1 rejection; non-trivial = bystander tripped")
+	defer m.Done()
+	defer c01SetupClock(m)()
+	n := vk.N(20, 300)
+	r := m.Rand("disabled")
+	kinds := []string{"do", "doacc", "dofb", "dofbacc", "allow"}
+	for idx := 1; idx <= n; idx++ {
+		pre := r.Intn(2) == 1
+		failPct := []int{0, 30, 70, 100}[r.Intn(4)]
+		lr := rand.New(rand.NewSource(r.Int63()))
+		if !m.Only(idx) {
+			continue
+		}
+		x := fmt.Sprintf("%s#disabled-x#%d", c01Names[lr.Intn(len(c01Names))], idx)
+		b := fmt.Sprintf("%s#disabled-b#%d", c01Names[lr.Intn(len(c01Names))], idx)
+		desc := fmt.Sprintf("case=%d;NoBreakerFor(%q) pre-tripped=%v fail%%=%d bystander %q", idx, x, pre, failPct, b)
+		m.Current(desc)
+		tripped := false
+		pval, panicked := vk.Recover(func() {
+			bInst := Get(b)
+			var preFail int64 // failures the name's previous breaker recorded (still in the frozen window)
+			if pre {
+				for i := 0; i < 300; i++ {
+					_ = Do(x, func() error { preFail++; return c01ErrBad })
+				}
+			}
+			NoBreakerFor(x)
+			m.Count("no_breaker_for_calls", 1)
+			if Get(b) != bInst {
+				m.Violate("C01:registry:identity:after-NoBreakerFor", desc, "NoBreakerFor(%q) changed the breaker registered for the other name %q", x, b)
+				return
+			}
+			// the statement does not say that the opt-out forgets earlier outcomes: count them
+			var acc, tot int64 = 0, preFail
+			for i := 0; i < 300; i++ {
+				kind := kinds[lr.Intn(len(kinds))]
+				out := "ok"
+				if lr.Intn(100) < failPct {
+					out = []string{"uerr", "panic", "unavail"}[lr.Intn(3)]
+					if kind == "allow" {
+						out = "uerr"
+					}
+				} else if (kind == "doacc" || kind == "dofbacc") && lr.Intn(2) == 0 {
+					out = "aerr"
+				}
+				must := c01MustAdmit(acc, tot)
+				admitted, success, ok := c01RaceCall(m, desc, Get(x), x, kind, lr.Intn(2) == 0, out, i)
+				m.Count("calls_on_disabled_name", 1)
+				if !ok {
+					return
+				}
+				if !admitted {
+					m.Count("rejected_on_disabled_name", 1)
+					if must {
+						m.Violate("C01:reject:below-threshold:disabled-name", desc, "call #%d on %q was rejected although the outcomes recorded for the name (incl. before NoBreakerFor) are accepts=%d total=%d", i, x, acc, tot)
+						return
+					}
+					continue
+				}
+				tot++
+				if success {
+					acc++
+				}
+			}
+			rej := 0
+			for i := 0; i < 400; i++ {
+				ran := false
+				_ = Do(b, func() error { ran = true; return c01ErrBad })
+				if !ran {
+					rej++
+				}
+			}
+			m.Count("bystander_rejections", int64(rej))
+			if rej == 0 {
+				m.Violate("C01:nonbenign:bystander-after-NoBreakerFor:never-cut-off", desc, "400 failing calls on %q after NoBreakerFor(%q) and none was rejected: the opt-out leaked to another name", b, x)
+				return
+			}
+			tripped = true
+		})
+		if panicked {
+			m.Violate("C01:harness-observed-panic", desc, "unexpected panic: %v", pval)
+		}
+		c01Forget(x, b)
+		m.Case(vk.Digest("disabled", idx, pre, failPct), tripped)
+		if m.WantSample() {
+			m.Sample(map[string]any{"case": idx, "x_pre_tripped": pre, "fail_percent_on_x": failPct, "bystander_tripped": tripped})
+		}
+	}
+}
